@@ -1352,7 +1352,15 @@ fn run_case(case: &Case, dir: &Path, scratch: &Path, l: &mut Local) -> Outcome {
                   match observe(&index, &case.requests) {
                     Ok(o2) => {
                       let diffs = compare(&case.schema, &case.requests, &m2, &o, &o2, l);
-                      let h3: Vec<Vec<Op>> = vec![m.iter().map(|(id, doc)| Op::Add { id: id.clone(), doc: doc.clone() }).collect(), case.post_ops.clone()];
+                      // a history equivalent to the state before this compaction: the first compaction either
+                      // rewrote the live documents into one segment or (<= 1 segment) did nothing at all
+                      let h3: Vec<Vec<Op>> = if st0.segments <= 1 {
+                        let mut h = case.commits.clone();
+                        h.push(case.post_ops.clone());
+                        h
+                      } else {
+                        vec![m.iter().map(|(id, doc)| Op::Add { id: id.clone(), doc: doc.clone() }).collect(), case.post_ops.clone()]
+                      };
                       classify_request_diffs(case, &m2, &h3, &diffs, "third-compact", scratch, &mut out);
                     }
                     Err(e) => out.fails.push((format!("third-compact:unreadable:{}", stem(&e)), e, Value::Null)),
@@ -1394,6 +1402,14 @@ fn main() {
   ctx.run_cases("compact", n, |rng: &mut Rng, l: &mut Local, scratch: &PathBuf| {
     let case = gen_case(rng, quick);
     let dir = scratch.join("idx");
+    if let Ok(p) = std::env::var("C14_DUMP") {
+      // debugging aid for `--case N`: the complete generated case
+      let _ = std::fs::write(p, serde_json::to_string_pretty(&json!({"mode": case.mode.name(), "in_memory": case.in_memory, "positions": case.positions,
+        "schema": case.schema.to_json(),
+        "commits": case.commits.iter().map(|c| c.iter().map(|o| o.to_json()).collect::<Vec<_>>()).collect::<Vec<_>>(),
+        "post_ops": case.post_ops.iter().map(|o| o.to_json()).collect::<Vec<_>>(),
+        "requests": case.requests.iter().map(|q| q.json.clone()).collect::<Vec<_>>()})).unwrap());
+    }
     l.count(&format!("mode[{}]", case.mode.name()), 1);
     l.count(if case.in_memory { "storage_inmemory" } else { "storage_filesystem" }, 1);
     // population counters
